@@ -135,10 +135,10 @@ check("C05", "DESIGN.md 5/C05",
       "materializer are not parameters; replay of every case on entry points x outputs x materializers/data forms; contrast codings of "
       "Contrasts.tla on all combinations; TLA+ state machine Registry.tla of the materializer registry / dispatch replayed into the real metaclass",
       "the specification defines the result as a function of formula, data and options only; each enumerated case is executed through "
-      "sugar / Formula / ModelSpec / materializer class / the spec attached to an earlier result (method and top-level function), for pandas / numpy / sparse output, with the pandas materializer, narwhals on the "
-      "pandas frame and narwhals on a pyarrow table (6 rotating combinations per case in the quick tier, all 54 in the thorough tier) and "
+      "sugar / Formula / ModelSpec / materializer class / the spec attached to an earlier result (method and top-level function) / a materializer object that has already produced another output, for pandas / numpy / sparse output, with the pandas materializer, narwhals on the "
+      "pandas frame and narwhals on a pyarrow table (6 rotating combinations per case in the quick tier, all 63 in the thorough tier) and "
       "every result must equal the specification's matrix, hence all agree. Every contrast coding enumerated by MC_Contrasts (exact "
-      "rationals) is built as C(g, contr...) + x with and without an intercept on all 54 combinations. Registry.tla: every sequence of "
+      "rationals) is built as C(g, contr...) + x with and without an intercept on all 63 combinations. Registry.tla: every sequence of "
       "<= 4 / 5 materializer class definitions (names, explicit input types, outputs, precedence, SUPPORTS_INPUT predicates) with the laws "
       "sorted lists / sound / complete / priority / monotone; each history is replayed by defining real subclasses (registry saved and "
       "restored) and every for_data / for_materializer query compared (also random sequences of 7 definitions by tlc -simulate); the shipped registry "
